@@ -573,6 +573,7 @@ func crossConfirm(obs []*Obligation, timeout, par int) (int, []string) {
 	var dis []string
 	var wg sync.WaitGroup
 	sem := make(chan struct{}, par)
+	deadline := time.Now().Add(300 * time.Second) // budget of the confirmation pass inside one thorough run
 	for i, ob := range obs {
 		if ob.Kind != "proof" || ob.Result != "unsat" || ob.SMT == "" {
 			continue
@@ -582,6 +583,9 @@ func crossConfirm(obs []*Obligation, timeout, par int) (int, []string) {
 			defer wg.Done()
 			sem <- struct{}{}
 			defer func() { <-sem }()
+			if time.Now().After(deadline) {
+				return
+			}
 			file := filepath.Join(tmp, fmt.Sprintf("x%d.smt2", i))
 			os.WriteFile(file, []byte(ob.SMT), 0o644)
 			ok := false
